@@ -238,6 +238,12 @@ func runC19(c *run.Ctx) {
 			p2.Labels = map[string]string{"app": "a"}
 		}
 		r.Ev("owner_label_difference_shapes", 1)
+		if g.P(0.4) { // the owner itself is in the input (a ReplicaSet / StatefulSet manifest) next to a dumped Pod it owns, with other labels
+			p1.Kind = rng.Pick(g, []string{world.KReplicaSet, world.KStatefulSet})
+			p1.NPods = 0
+			p2.OwnerKind = p1.Kind
+			r.Ev("owner_manifest_next_to_an_owned_pod", 1)
+		}
 		d1 := (&world.World{Workloads: []world.Workload{p1}}).Docs()[0]
 		d2 := (&world.World{Workloads: []world.Workload{p2}}).Docs()[0]
 		d2.YAML = strings.Replace(d2.YAML, "conflict-owner-x0", "conflict-owner-x1", 1)
